@@ -105,8 +105,45 @@ func contractSet(c *core.Ctx) map[*ssa.Function]bool {
 			set[f] = true
 		}
 	}
+	// closure under forwarding: a module function returning (*dnsmsg.Msg, error) whose every return satisfies the pair
+	// contract given the set so far (typically a helper that returns the pair of a contract call) is a contract
+	// function itself (least fixpoint: added only once verified)
+	if !contractClosing {
+		contractClosing = true
+		defer func() { contractClosing = false }()
+		for changed := true; changed; {
+			changed = false
+			for _, fn := range c.SrcFuncs() {
+				if set[fn] || fn.Parent() != nil || fn.Pkg == nil || !core.IsModule(fn.Pkg.Pkg) || fn.Blocks == nil {
+					continue
+				}
+				res := fn.Signature.Results()
+				if res.Len() != 2 || !strings.HasSuffix(res.At(0).Type().String(), "dnsmsg.Msg") || res.At(1).Type().String() != "error" {
+					continue
+				}
+				all, n := true, 0
+				for _, ret := range returnsOf(fn) {
+					rs := core.ReturnResults(ret)
+					if len(rs) != 2 {
+						all = false
+						continue
+					}
+					n++
+					if ok, _ := pairOK(c, fn, rs[0], rs[1], ret.Block(), set, 0); !ok {
+						all = false
+					}
+				}
+				if all && n > 0 {
+					set[fn] = true
+					changed = true
+				}
+			}
+		}
+	}
 	return set
 }
+
+var contractClosing bool
 
 func r03a(c *core.Ctx) {
 	hr := c.Anchor("app/router", "(*router).handleReq")
